@@ -15,12 +15,12 @@ TRUSTED_BASE = [
 
 # which components of E a property's theorems depend on (DESIGN.md §4.2)
 CONES = {
-    "C01": {"compiler", "engine"}, "C02": {"engine", "scan"}, "C03": {"compiler", "engine", "scan"},
+    "C01": {"compiler", "engine"}, "C02": {"engine", "scan"}, "C03": {"compiler", "engine", "scan", "captures"},
     "C04": {"scan"}, "C05": {"compiler", "engine", "scan"}, "C06": {"engine", "scan"},
     "C07": {"compiler"}, "C08": {"compiler", "engine"}, "C09": {"compiler", "engine"}, "C10": {"compiler"},
     "C11": {"compiler", "engine"}, "C12": {"compiler", "engine"}, "C13": {"compiler", "engine", "scan"},
-    "C14": {"compiler"}, "C15": {"scan"}, "C16": {"engine", "scan"}, "C17": {"compiler"},
-    "C18": {"scan"}, "C19": {"compiler", "engine"}, "C20": {"compiler", "engine"},
+    "C14": {"compiler"}, "C15": {"scan", "captures"}, "C16": {"engine", "scan"}, "C17": {"compiler"},
+    "C18": {"scan"}, "C19": {"compiler", "engine", "captures"}, "C20": {"compiler", "engine"},
 }
 
 
@@ -130,13 +130,20 @@ def attribute(case):
     b = rxlib.norm(rxlib.driver([c.dline(0, hi, "eng")]).get("0"))
     if a == b:
         return "compiler"
-    # spans differ?  (replace with a marker replacement shows the spans and group texts)
+    # spans differ?  (a marker replacement shows the spans)
     sp = Case(c.pattern, c.flags, "replace", c.input, "\u0001$0\u0002", dialect=c.dialect, mode=c.mode)
     a2 = rxlib.norm(rxlib.harness([sp.hline(0)]).get("0"))
     b2 = rxlib.norm(rxlib.driver([sp.dline(0, hi, "eng")]).get("0"))
-    if a2 != b2 and c.api != "replace":
-        return "engine"
-    return "scan"
+    if a2 != b2:
+        return "engine" if c.api != "replace" else "scan"
+    # same spans: is only the content of groups different (capture state / tree builder), or the loops themselves?
+    def strip_groups(x):
+        return re.sub(r"G\d+\(|\)| ", "", x).replace("S:", ",") if x.startswith("OK") else x
+    if c.api == "analyze" and strip_groups(a) != strip_groups(b):
+        return "scan"
+    if c.api == "tokenize":
+        return "scan"
+    return "captures"
 
 
 # ------------------------------------------------------------------------------------------------
@@ -272,7 +279,7 @@ def program_groups(ctx, groups):
     ctx.rnd.shuffle(keys)
     out = []
     for k, g in keys[:ctx.scale(1200, 12000)]:
-        out.append(Group([Case(k[2], k[3], "dump", dialect=k[0], mode=k[1])], {"features": g.meta.get("features", set()), "l2": True,
+        out.append(Group([Case(k[2], k[3], "dump", dialect=k[0], mode=k[1])], {"features": g.meta.get("features", set()), "l2": True, "src": g,
                                                                                     "input": "", "chars": [""], "expect": [None]}))
     return out
 
@@ -325,8 +332,12 @@ def default_search(ctx, g, j):
     plug = PLUGINS[ctx.prop]
     if "regroup" not in plug:
         return None
+    if g.meta.get("l2"):
+        # the compiled programs differ: search with the requests of the group this pattern came from
+        g = g.meta["src"]
+        j = 0
     c = g.cases[j]
-    alpha = sorted(set(c.input) | set(ch for ch in c.pattern if ch.isalnum()) | {"a"})[:4]
+    alpha = sorted(set(c.input) | set(ch for ch in c.pattern if ch.isalnum() and not ch.isdigit()) | {"a"})[:4]
     inputs = [""]
     for n in range(1, 6 if ctx.quick() else 8):
         inputs += ["".join(t) for t in itertools.product(alpha, repeat=n)]
@@ -455,7 +466,7 @@ def parse_replace(ans):
 
 def gen_pattern(ctx, **kw):
     r = ctx.rnd
-    alpha = kw.pop("alphabet", None) or r.choice(["abc", "ab", "abAB", "ab\n"])
+    alpha = kw.pop("alphabet", None) or r.choice(["abc", "ab", "abAB", "ab\n", "xyz"])
     g = Gen(r, alphabet=alpha, **kw)
     ast = g.gen(r.choice([1, 2, 2, 3, 3, 4]))
     return ast, render(ast), alpha
@@ -479,9 +490,17 @@ def c04_streams(ctx):
         xsd = r.random() < 0.2
         ast, p, alpha = gen_pattern(ctx, xsd=xsd)
         f = r.choice(["", "", "i", "m", "s", "im"])
-        extra = ASTRAL if r.random() < 0.3 else ()
+        extra = list(ASTRAL) if r.random() < 0.3 else []
+        if not xsd and r.random() < 0.2:
+            # line-anchored patterns over multi-line inputs (the start-anchor search path, '$' before newlines)
+            p = r.choice(["^", "^", ""]) + p + r.choice(["$", "", ""])
+            f = r.choice(["m", "m", "im", "ms", ""])
+            extra = extra + ["\n", "\n"]
+            ast = ("seq", [("bol",), ast, ("eol",)])       # (features only: anchors present)
+        if "m" in f:
+            extra = extra + ["\n"]
         for _ in range(2):
-            s = rand_input(ctx, alpha, 8, extra)
+            s = rand_input(ctx, alpha, 9, extra)
             R = r.choice(["-", "", "xy", "é"])
             d = "xs" if xsd else "xp"
             cs = [Case(p, f, "analyze", s, dialect=d), Case(p, f, "tokenize", s, dialect=d),
@@ -750,6 +769,54 @@ def small_groups(ctx, maxsize, maxlen, flagsets, apis):
     return groups
 
 
+STRESS_BODIES = [("ab", ["ab"]), ("abc", ["abc"]), ("a", ["a"]), ("[ab]", ["a", "b"]), ("(?:ab|cd)", ["ab", "cd"]), ("(?:a|ab)", ["a", "ab"]),
+                 ("(?:ab|a)", ["ab", "a"]), ("(?:a|b|ab)", ["a", "b", "ab"]), ("(ab)", ["ab"]), ("a.", ["ab", "ax"]), ("(?:aa|a)", ["aa", "a"]),
+                 ("[ab][bc]", ["ab", "bc", "ac"]), ("(?:abc|ab)", ["abc", "ab"]), ("..", ["ab", "ba", "xx"]), ("(a|b)c", ["ac", "bc"])]
+STRESS_QUANTS = ["*", "+", "?", "{2}", "{3}", "{2,}", "{3,}", "{1,2}", "{2,3}", "{0,2}", "{2,4}", "*?", "+?", "??", "{2}?", "{2,}?", "{1,3}?", "{0,2}?"]
+
+
+def stress_pattern(ctx):
+    """a quantified body followed by something that can start like the body: the shapes that make each of the
+    five repetition iterators give back iterations"""
+    r = ctx.rnd
+    btxt, words = r.choice(STRESS_BODIES)
+    q = r.choice(STRESS_QUANTS)
+    w = r.choice(words)
+    fol = r.choice([w, w[:1], w[:1], w[-1:], w + w[:1], "x", "", "c", "(?:" + w + "|x)", "[" + w[:1] + "x]", w[:1] + "?" + w[-1:], "$", "\\1" if "(" in btxt and "?:" not in btxt else w])
+    pre = r.choice(["", "", "^", "x", "(?:x|)"])
+    suf = r.choice(["", "", "$", "x"])
+    p = pre + btxt + q + fol + suf
+    toks = words + [w[:1], "x", "c"]
+    return p, toks
+
+
+def stress_groups(ctx, n, apis, flags=("", "", "i", "m"), modes=("opt",)):
+    r = ctx.rnd
+    gs = []
+    for i in range(n):
+        p, toks = stress_pattern(ctx)
+        f = r.choice(flags)
+        if "i" in f:
+            # mixed case: the repeated letter followed by its other case, inputs in both cases
+            p = "".join(ch.upper() if (ch.isalpha() and r.random() < 0.35) else ch for ch in p)
+            toks = toks + [t.upper() for t in toks]
+        if "m" in f and r.random() < 0.5:
+            p = p.replace("x", "\n") if r.random() < 0.5 else p
+            toks = toks + ["\n"]
+        try:
+            ast = props2.parse_full(p)
+        except Exception:
+            ast = None
+        if ast is None:
+            continue
+        fe = features(ast)
+        for _ in range(3):
+            s = "".join(r.choice(toks) for _ in range(r.randint(0, 5)))
+            cs = [Case(p, f, api, s, repl, mode=m) for m in modes for api, repl in apis]
+            gs.append(Group(cs, {"features": fe, "input": s, "ast": ast, "flags": f, "kind": "stress"}))
+    return gs
+
+
 def abnormal(a):
     return a in ("PANIC", "HANG", "ABORT", "MISSING") or a.startswith("ERR:Internal")
 
@@ -776,10 +843,12 @@ def regroup_same_apis(ctx, g, s):
 
 def c01_streams(ctx):
     if ctx.quick():
-        gs = random_groups(ctx, 5000, [("is_match", "")])
+        gs = random_groups(ctx, 4000, [("is_match", "")])
+        gs += stress_groups(ctx, 2500, [("is_match", "")])
         gs += small_groups(ctx, 3, 4, [""], [("is_match", "")])
     else:
         gs = random_groups(ctx, 60000, [("is_match", "")])
+        gs += stress_groups(ctx, 40000, [("is_match", "")])
         gs += small_groups(ctx, 4, 5, ["", "m"], [("is_match", "")])
         ctx.exhaustive = True
     return gs
@@ -823,8 +892,9 @@ def analyze_spans(ans):
 
 
 def c02_streams(ctx):
-    n = ctx.scale(4000, 50000)
+    n = ctx.scale(3000, 50000)
     gs = random_groups(ctx, n, [("analyze", "")], flags=["", "", "i", "m", "s", "im"])
+    gs += stress_groups(ctx, ctx.scale(1500, 25000), [("analyze", "")])
     # astral and combining characters: offsets are code points
     for p, s in [("b", "\U0001F600b\U00010400b"), ("\U0001F600", "a\U0001F600b\U0001F600"), ("é", "xéye"), (".", "\U00010400")]:
         gs.append(Group([Case(p, "", "analyze", s)], {"features": set(), "input": s, "ast": ("seq", [("lit", c) for c in p]) if p != "." else ("dot",), "flags": ""}))
@@ -939,6 +1009,26 @@ def c03_streams(ctx):
             s = rand_input(ctx, alpha, 7)
             gs.append(Group([Case(p, f, "analyze", s), Case(p, f, "replace", s, repl)],
                             {"features": fe, "input": s, "ast": ast, "flags": f, "ngroups": ng, "repl": repl}))
+    return gs + c03_shape_groups(ctx)
+
+
+C03_SHAPES = ["(?:(a)|(b))+", "(?:(a+)|(b+))+", "(?:(a+)|(b+)|(c))*c", "((a)|(b))+", "(?:(a)(b)?)+", "(a)|(b)|(c)", "(?:(a)|b)+(b)?", "((a+)(b*))+",
+              "(a(b(c)?)?)+", "(?:(ab)|(a)|(b))+", "(?:(\\d+)|([a-z]+))+", "(?:(a)|(b)|(ab))+?c", "(a)?(b)?(c)?x", "((a)|(b)|(c))*x", "(?:(a)b|a(c))+"]
+
+
+def c03_shape_groups(ctx):
+    r = ctx.rnd
+    gs = []
+    for _ in range(ctx.scale(500, 6000)):
+        p = r.choice(C03_SHAPES)
+        ast = props2.parse_simple(p) if "\\" not in p and "[" not in p and "?c" not in p else None
+        if ast is None:
+            continue
+        ng = ngroups_of(ast)
+        s = "".join(r.choice("abcx") for _ in range(r.randint(1, 7)))
+        repl = "<" + "|".join("$%d" % k for k in range(1, ng + 1)) + ">"
+        gs.append(Group([Case(p, "", "analyze", s), Case(p, "", "replace", s, repl)],
+                        {"features": features(ast), "input": s, "ast": ast, "flags": "", "ngroups": ng, "repl": repl}))
     return gs
 
 
@@ -1044,6 +1134,14 @@ def c05_streams(ctx):
         cs = [Case(p, f, "compile", "", dialect=d), Case(p, f, "is_match", s, dialect=d), Case(p, f, "replace", s, repl, dialect=d),
               Case(p, f, "tokenize", s, dialect=d), Case(p, f, "analyze", s, dialect=d), Case(p, f, "tokenize", "", dialect=d)]
         gs.append(Group(cs, {"features": features(ast) if ast else set(), "input": s, "kind": kind}))
+    # capture-heavy valid patterns through analyze / replace (the group event stack, unwraps on capture positions)
+    for i in range(ctx.scale(900, 12000)):
+        ast, p, alpha = gen_pattern(ctx, maxgroups=r.choice([2, 4, 12]))
+        f = r.choice(["", "i", "m"])
+        for _ in range(2):
+            s = rand_input(ctx, alpha, 7, "\n" if "m" in f else "")
+            cs = [Case(p, f, "compile", ""), Case(p, f, "analyze", s), Case(p, f, "replace", s, "$1$2$3"), Case(p, f, "tokenize", s)]
+            gs.append(Group(cs, {"features": features(ast), "input": s, "kind": "captures"}))
     # nesting depth (stack exhaustion is explored, not modelled): moderate depths must work
     for depth in ([50, 200] if ctx.quick() else [50, 200, 1000]):
         p = "(" * depth + "a" + ")" * depth
@@ -1122,9 +1220,9 @@ def shortcut_pattern(ctx):
     elif k < 0.45:
         p = "^" + p                                           # start anchor
     elif k < 0.7:
-        x = r.choice(["a", "b", "[ab]", "\\w", ".", "\\n", "\\s", "\\d"])
+        x = r.choice(["a", "b", "[ab]", "\\w", ".", "\\n", "\\s", "\\d", "x", "z", "é", "[x-z]"])
         q = r.choice(["*", "+", "?", "{2}", "{1,3}", "*?", "+?", "{0,2}?"])
-        y = r.choice(["a", "b", "[ab]", "c", "\\n", "$", "^", "\\w", "(?:a|b)", "b*", "(b)", "1"])
+        y = r.choice(["a", "b", "[ab]", "c", "\\n", "$", "^", "\\w", "(?:a|b)", "b*", "(b)", "1", ".", "[^0-9]", "\\S", "x", "[^a]", "A", "B", "Ab", "[A-B]", "$\\nb", "^a"])
         tail = r.choice(["", p])
         if not tail:
             fe = set()
@@ -1142,7 +1240,7 @@ def c08_streams(ctx):
         p, alpha, fe = shortcut_pattern(ctx)
         f = r.choice(FLAGSETS)
         for _ in range(2):
-            s = rand_input(ctx, alpha + "1", 8, "\n" if ("m" in f or r.random() < 0.3) else "")
+            s = rand_input(ctx, alpha + "1xzé", 8, "\n" if ("m" in f or r.random() < 0.3) else "")
             cs = []
             for mode in ("opt", "noopt"):
                 cs += [Case(p, f, "is_match", s, mode=mode), Case(p, f, "replace", s, "<$0|$1>", mode=mode),
